@@ -93,11 +93,20 @@ def run(ctx):
                     tt = k.get("v")
                     if not callee(t).endswith("Duration::mul_f32"):
                         tt = "used by " + callee(t)
-                if k and k.get("named", "").endswith("::GRANULARITY") and callee(t).endswith("cmp::max"):
+                if k and k.get("named", "").endswith("::GRANULARITY") and re.search(r"cmp::max$|Ord(>)?::max$", callee(t)):
                     gran = True
         ctx.ob("R1", "%s|TIME_THRESHOLD=9/8 multiplies max(latest,smoothed)" % ld.short,
                tt is not None and tt == "1.125", ld.where(), "TIME_THRESHOLD operand evaluates to %s (need 1.125 = 9/8)" % tt)
         ctx.ob("R1", "%s|result floored by GRANULARITY" % ld.short, gran, ld.where(), "max(.., GRANULARITY) present: %s" % gran)
+        # the multiplicand is max(latest_rtt, smoothed_rtt): both samples flow into the value that is multiplied
+        flds = set()
+        for i, t in ld.calls():
+            if callee(t).endswith("Duration::mul_f32") and t["args"]:
+                for pl in deep_places(ld, t["args"][0], 6):
+                    flds |= set(f for f in place_fields(pl) if f in ("latest_rtt", "smoothed_rtt", "min_rtt", "rttvar"))
+        ctx.ob("R1", "%s|the threshold is taken over max(latest_rtt, smoothed_rtt)" % ld.short, {"latest_rtt", "smoothed_rtt"} <= flds, ld.where(),
+               "RTT fields flowing into the multiplied value: %s — without latest_rtt a path whose RTT has just grown declares packets "
+               "lost (and halves the window) while they are younger than 9/8 of the current round trip" % sorted(flds))
     g = ctx.anchor("R1", "qcongestion::rtt::GRANULARITY", kinds=("const",))
     if g:
         ok = False
